@@ -2,6 +2,7 @@ package coop
 
 import (
 	"fmt"
+	"reflect"
 	"runtime"
 	"strings"
 )
@@ -134,4 +135,24 @@ func vcAt(vc []int, i int) int {
 		return vc[i]
 	}
 	return 0
+}
+
+// AccessAddr reports an access to the variable p points to (a struct field).
+func AccessAddr(p interface{}, name string, write bool) {
+	if !hbEnabled || mode != Managed || cur == nil {
+		return
+	}
+	Access(reflect.ValueOf(p).Pointer(), name, write)
+}
+
+// AccessMap reports an access to the map object m (identified by the map itself, not by the variable holding it).
+func AccessMap(m interface{}, name string, write bool) {
+	if !hbEnabled || mode != Managed || cur == nil {
+		return
+	}
+	v := reflect.ValueOf(m)
+	if v.Kind() != reflect.Map || v.IsNil() {
+		return
+	}
+	Access(v.Pointer(), name, write)
 }
